@@ -567,6 +567,19 @@ func (env *specEnv) call(e *ast.CallExpr) Value {
 					out.L[i] = Ite(c, a.L[i], b.L[i])
 				}
 				return out
+			case "first", "second", "third":
+				v := env.eval(e.Args[0])
+				tup, ok := v.T.(*types.Tuple)
+				if !ok {
+					unsup("%s() of a non-tuple", id.Name)
+				}
+				idx := map[string]int{"first": 0, "second": 1, "third": 2}[id.Name]
+				lo := 0
+				for i := 0; i < idx; i++ {
+					lo += len(x.E.layout(tup.At(i).Type()))
+				}
+				n := len(x.E.layout(tup.At(idx).Type()))
+				return Value{T: tup.At(idx).Type(), L: append([]Term(nil), v.L[lo:lo+n]...)}
 			case "sameptr":
 				a, b := env.eval(e.Args[0]), env.eval(e.Args[1])
 				return Value{T: types.Typ[types.Bool], L: []Term{And(Eq(a.L[0], b.L[0]), Eq(a.L[1], b.L[1]))}}
